@@ -4,6 +4,28 @@ import json, os, subprocess
 ROOT = os.path.dirname(os.path.dirname(os.path.abspath(__file__)))
 
 CHECKS = {
+    "C01": dict(
+        technique="TLA+ spec Fanout (Group fan-out of one stream: GOP caches with cap, merge writer, fresh / wait-key flags, FLV "
+                  "record; TLC exhaustive + simulation) + replay of every edge / simulated behaviour into a real logic.Group "
+                  "with RTMP, HTTP-FLV, WebSocket-FLV consumers on in-memory connections + TLC trace validation",
+        text="TLC checks Contiguous / MetaForm / no-duplicate / record-complete invariants over every interleaving of publisher "
+             "arrival and departure, publishes of every message type and size class, joins and leaves for gop_num 0 / 1 / 2, "
+             "GOP caps, merge-writer budgets and recording; behaviours are replayed into a real Group, the bytes each "
+             "consumer received are projected by independent chunk / FLV readers to message ids (position-coded "
+             "payloads) and the delivered sequence after every step is decided by TLC.",
+        note="One stream, up to three consumers; RTMP, HTTP-FLV, WS-FLV consumers and the FLV record (the TS / RTSP / HLS outputs "
+             "are decided by C06 / C10). Relay-push prologue is not part of the fan-out model. Quick replays every edge of "
+             "the smallest configuration and simulated behaviours of the others.",
+        ref="6/C01"),
+    "C02": dict(
+        technique="TLA+ spec Fanout (join prologue: metadata, sequence headers in force, cached GOPs, wait-for-key gating, "
+                  "re-publish epochs; TLC exhaustive + simulation) + replay into a real logic.Group + TLC trace validation",
+        text="TLC checks HeadersFirst, HeaderInForce, KeyFirst, GopReplay and NoWaitWithoutVideo over every join instant "
+             "relative to the publish sequence, audio-only / video-only / late-header streams and re-publish histories; "
+             "behaviours are replayed into a real Group and what each consumer has received after every step is decided by TLC.",
+        note="RTMP / HTTP-FLV / WS-FLV consumers; the start of TS, HLS and RTSP consumers is decided through the remux models "
+             "of C06 / C10 only for a consumer present from the start (late TS / RTSP joiners are not modelled).",
+        ref="6/C02"),
     "C08": dict(
         technique="TLA+ spec RtmpChunk (reference writer x spec reader, TLC exhaustive) + edge-cover replay into "
                   "lal ChunkComposer + TLC trace validation of lal message2Chunks output",
